@@ -27,6 +27,11 @@ static CUR_DEPTH: AtomicUsize = AtomicUsize::new(0);
 static CUR_PATH: [AtomicU8; 16] = [const { AtomicU8::new(0) }; 16];
 
 extern "C" fn on_fatal_signal(sig: libc::c_int) {
+    write_mark(b"\nABORT-MARK sig=", sig as u64, 70);
+}
+
+/// async-signal-safe: formats numbers by hand, write(2), _exit
+fn write_mark(head: &[u8], sig: u64, code: i32) -> ! {
     // async-signal-safe: format numbers by hand, write(2), _exit
     let mut buf = [0u8; 256];
     let mut n = 0;
@@ -56,8 +61,8 @@ extern "C" fn on_fatal_signal(sig: libc::c_int) {
         i
     }
     let mut d = [0u8; 24];
-    put(b"\nABORT-MARK sig=", &mut n);
-    let l = num(sig as u64, &mut d);
+    put(head, &mut n);
+    let l = num(sig, &mut d);
     put(&d[..l], &mut n);
     put(b" unit=", &mut n);
     let l = num(CUR_UNIT.load(Relaxed) as u64, &mut d);
@@ -81,8 +86,27 @@ extern "C" fn on_fatal_signal(sig: libc::c_int) {
     put(b"\n", &mut n);
     unsafe {
         libc::write(2, buf.as_ptr() as *const libc::c_void, n);
-        libc::_exit(70);
+        libc::_exit(code);
     }
+}
+
+/// a history that does not return is a violation, not a reason to block the whole run:
+/// the watchdog reports the position of the stuck history and ends the process
+fn start_watchdog(limit: std::time::Duration) {
+    std::thread::spawn(move || {
+        let mut last = (usize::MAX, 0u64);
+        let mut since = Instant::now();
+        loop {
+            std::thread::sleep(std::time::Duration::from_millis(200));
+            let cur = (CUR_UNIT.load(Relaxed), CUR_INDEX.load(Relaxed));
+            if cur != last {
+                last = cur;
+                since = Instant::now();
+            } else if cur.0 != usize::MAX && since.elapsed() > limit {
+                write_mark(b"\nHANG-MARK sig=", 0, 71);
+            }
+        }
+    });
 }
 
 fn install_signal_handlers() {
@@ -346,6 +370,8 @@ fn main() {
     let args: Vec<String> = std::env::args().skip(1).collect();
     install_signal_handlers();
     install_quiet_hook();
+    let limit: u64 = std::env::var("SEQ_HANG_SECS").ok().and_then(|x| x.parse().ok()).unwrap_or(20);
+    start_watchdog(std::time::Duration::from_secs(limit));
     let code = match args.first().map(|s| s.as_str()) {
         Some("run") => run_cmd(&args[1..]),
         Some("replay") => replay_cmd(&args[1..]),
@@ -462,6 +488,7 @@ fn replay_cmd(args: &[String]) -> i32 {
     let pair = if s.pair { kind.underlying() } else { None };
     let mut pair_env = Env::new(pair.map(|k| k.info()).unwrap_or(ki), len);
     let mut hashes = vec![];
+    CUR_UNIT.store(0, Relaxed);
     for _ in 0..2 {
         hashes.push(run_case(kind, s.mode, &mut env, &hist, term, pair, &mut pair_env));
     }
